@@ -111,7 +111,7 @@ func (p *gcpPicker) Pick(info balancer.PickInfo) (balancer.PickResult, error) {
 			bindKeys, err := getAffinityKeysFromMessage(locator, gcpCtx.replyMsg)
 			if err == nil {
 				for _, bk := range bindKeys {
-					p.gb.bindSubConn(bk, p.gb.currentSubConn(scRef))
+					p.gb.bindSubConnRef(bk, scRef)
 				}
 			}
 		case grpc_gcp.AffinityConfig_UNBIND:
